@@ -332,12 +332,65 @@ def fam_string(maxk):
     return build, expect
 
 
+ESCAPES = {"a": 7, "b": 8, "t": 9, "n": 10, "r": 13, '"': 34, "\\": 92, "|": 124}
+
+
+def fam_string_escapes(pattern):
+    """'"' units '"' [')']  where unit i is a plain character (no quote, no backslash) or - where pattern[i] - a backslash followed
+    by one of a b t n r " \\ | ; the token is the string of the denoted characters and ends at the closing quote"""
+    def build(ex):
+        n = 1 + sum(2 if e else 1 for e in pattern) + 1 + 1
+        chars = [lexskel.char_var(ex, "c%d" % i) for i in range(n)]
+        ln = z3.Int("len")
+        ex.ctx.add(chars[0] == 34, z3.Or(ln == n - 1, ln == n), chars[n - 2] == 34, chars[n - 1] == 41)
+        pos = 1
+        content = []
+        for e in pattern:
+            if e:
+                ex.ctx.add(chars[pos] == 92, z3.Or(*[chars[pos + 1] == ord(k) for k in ESCAPES]))
+                den = z3.IntVal(0)
+                for k, v in ESCAPES.items():
+                    den = z3.If(chars[pos + 1] == ord(k), v, den)
+                content.append(den)
+                pos += 2
+            else:
+                ex.ctx.add(chars[pos] != 34, chars[pos] != 92)
+                content.append(chars[pos])
+                pos += 1
+        build.meta = (chars, ln, content, n)
+
+        def pyexpect(text):
+            out = []
+            i = 1
+            while text[i] != '"':
+                if text[i] == "\\":
+                    out.append(chr(ESCAPES[text[i + 1]]))
+                    i += 2
+                else:
+                    out.append(text[i])
+                    i += 1
+            return "S %s" % hexs("".join(out)) + pytail(text[i + 1:])
+        return chars, ln, pyexpect
+
+    def expect(ex, chars, ln, tokens, status):
+        chars, ln, content, n = build.meta
+        if not tokens:
+            return z3.BoolVal(False)
+        tok, a, b = tokens[0]
+        td = tok.fields[0]
+        if not (td.variant == "Primitive" and td.fields[0].variant == "String"):
+            return z3.BoolVal(False)
+        return z3.And(charstr_eq(td.fields[0].fields[0], content), z3.BoolVal(a == 0 and b == n - 1), after_literal(ex, chars, ln, n - 1, tokens),
+                      z3.BoolVal(status != "error"))
+    return build, expect
+
+
 def run(chk):
     thorough = chk.tier == "thorough"
     chk.bounds = {"integers": "[sign] 1..10 digits (every value, also beyond i32) followed by the end or a delimiter and one more character",
                   "ratios": "1..%d digits '/' 1..%d digits" % ((10, 10) if thorough else (4, 4)), "booleans / characters": "#t #f #\\x for every character x",
                   "identifiers": "an initial and up to %d subsequent characters of the identifier alphabet, then the end or a delimiter" % (3 if thorough else 2),
-                  "strings": "bodies of 0..%d characters other than quote and backslash" % (3 if thorough else 2),
+                  "strings": "bodies of 0..%d characters other than quote and backslash; bodies of 1..%d units, each a plain character or one of the escapes \\a \\b \\t \\n \\r \\\" \\\\ \\|, followed by the end or a closing parenthesis" % (3 if thorough else 2, 3 if thorough else 2),
                   "layout": "identifier, 0..2 separator characters (blank, tab, CR, LF in any mix, or a ';' comment ended by LF or CR), then '(' / identifier / digit"}
     chk.assumptions += [
         "token-level slice of C06: the lexer only; the reader's list / dotted-tail / vector / quote structure (parser.rs, pair.rs) and read_literal are outside",
@@ -346,5 +399,12 @@ def run(chk):
     ]
     fams = [("integer literals", fam_integer(10)), ("ratio literals", fam_ratio(*((10, 10) if thorough else (4, 4)))), ("booleans and characters", fam_hash()),
             ("identifiers", fam_identifier(4 if thorough else 3)), ("strings", fam_string(3 if thorough else 2)), ("two tokens and layout", fam_two_tokens())]
+    import itertools
+    for k in (1, 2, 3) if thorough else (1, 2):
+        for pat in itertools.product((False, True), repeat=k):
+            if any(pat):
+                fams.append(("strings with escapes %s" % "".join("e" if e else "c" for e in pat), fam_string_escapes(pat)))
     for label, (build, expect) in fams:
         chk.step(label, run_family, chk, "Lexer: " + label, build, expect)
+    from . import c06reader
+    chk.step("reader structure", c06reader.spec_reader, chk, 5 if thorough else 4)
